@@ -2,7 +2,9 @@ package main
 
 import (
 	"fmt"
+	"go/constant"
 	"go/types"
+	"math/big"
 	"os"
 	"sort"
 	"strings"
@@ -156,6 +158,41 @@ func Load(ls LoadSpec) (*Program, error) {
 		byKey: map[string]*ssa.Function{}, ifaces: map[string]*FuncContract{}, typeIDs: map[string]int{},
 		sizes: types.SizesFor("gc", "amd64"), fcPkg: map[*FuncContract]*ssa.Package{}}
 	p.specs = &SpecEnv{byNm: map[string]*SpecFn{}}
+	// constant methods of concrete types: `func (*T) Key() int16 { return 3 }` (one block, returns an integer literal)
+	prev := constMethodHook
+	constMethodHook = func(t types.Type, name string) (*big.Int, types.Type, bool) {
+		ms := prog.MethodSets.MethodSet(t)
+		for i := 0; i < ms.Len(); i++ {
+			sel := ms.At(i)
+			if sel.Obj().Name() != name {
+				continue
+			}
+			fn := prog.MethodValue(sel)
+			if fn == nil || len(fn.Blocks) != 1 {
+				break
+			}
+			for _, in := range fn.Blocks[0].Instrs {
+				switch in := in.(type) {
+				case *ssa.DebugRef:
+				case *ssa.Return:
+					if len(in.Results) == 1 {
+						if k, ok := in.Results[0].(*ssa.Const); ok && k.Value != nil && k.Value.Kind() == constant.Int {
+							if v, ok := new(big.Int).SetString(k.Value.ExactString(), 10); ok {
+								return v, k.Type(), true
+							}
+						}
+					}
+					return nil, nil, false
+				default:
+					return nil, nil, false
+				}
+			}
+		}
+		if prev != nil {
+			return prev(t, name)
+		}
+		return nil, nil, false
+	}
 	// contract files
 	for i, pkg := range pkgs {
 		sp := spkgs[i]
